@@ -215,8 +215,10 @@ class Type3Tag(nfc.tag.Tag):
             last_block_number = 1 + (attributes['ln'] + 15) // 16
             data = bytearray()
 
-            for i in range(1, last_block_number, attributes['nbr']):
-                last_block = min(i + attributes['nbr'], last_block_number)
+            # a response frame can not hold more than 15 blocks
+            nbr = min(attributes['nbr'], 15)
+            for i in range(1, last_block_number, nbr):
+                last_block = min(i + nbr, last_block_number)
                 block_list = range(i, last_block)
                 try:
                     data += self.tag.read_from_ndef_service(*block_list)
